@@ -81,6 +81,27 @@ fn check_vertex(orig: &[f64], stored: &[f64], periods: &[f64], what: &str, log: 
     }
 }
 
+/// some D+1 of the points have an orientation determinant that is zero or inside the library's
+/// tolerance band (exactly or nearly co-hyperplanar input)
+fn near_cohyperplanar(pts: &[Vec<f64>], d: usize) -> bool {
+    use crate::exact::band::{analyze, orientation_matrix, Decision};
+    fn rec(pts: &[Vec<f64>], d: usize, start: usize, cur: &mut Vec<usize>) -> bool {
+        if cur.len() == d + 1 {
+            let m = orientation_matrix(&cur.iter().map(|&i| pts[i].clone()).collect::<Vec<_>>());
+            return !matches!(analyze(&m, 1e-15).decision, Decision::Sign(_));
+        }
+        for i in start..pts.len() {
+            cur.push(i);
+            if rec(pts, d, i + 1, cur) {
+                return true;
+            }
+            cur.pop();
+        }
+        false
+    }
+    pts.len() <= 14 && rec(pts, d, 0, &mut Vec::new())
+}
+
 fn pure_wrap<const D: usize>(case: &Case, log: &mut CaseLog) {
     let mut dom = [0.0f64; D];
     dom.copy_from_slice(&case.periods[..D]);
@@ -247,7 +268,7 @@ fn run<K: crate::gen::world::Kern<D>, const D: usize>(case: &Case, log: &mut Cas
         let cert = certify(&s, &CertOpts { levels: Opts::ball(g, true), delaunay: true, convex: true, coverage: false, reference: false });
         for (kind, detail) in cert.problems() {
             let cause = cert.violation_class;
-            log.violate(Violation::new(ID, &format!("result_{kind}"), "build", format!("toroidal(wrapping) result: {detail}")).fact("cause", cause).fact("tiny_facet", cert.convex_min_rel_facet < 1e-4).fact("coplanar_input", super::c01::has_cohyperplanar_subset(&s.points())));
+            log.violate(Violation::new(ID, &format!("result_{kind}"), "build", format!("toroidal(wrapping) result: {detail}")).fact("cause", cause).fact("tiny_facet", cert.convex_min_rel_facet < 1e-4).fact("coplanar_input", super::c01::has_cohyperplanar_subset(&s.points()) || near_cohyperplanar(&s.points(), D)));
             break;
         }
         // later insertions are wrapped the same way
